@@ -193,6 +193,7 @@ async fn verif_lib_scenario() {
     };
     match scenario.as_str() {
         "create_subscription_abandoned" => create_subscription_abandoned().await,
+        "actor_deadlock" => actor_deadlock().await,
         other => panic!("unknown scenario {}", other),
     }
 }
@@ -233,4 +234,37 @@ async fn create_subscription_abandoned() {
     };
     obs(json!({"scenario": "create_subscription_abandoned", "completed_in_one_poll": abandoned.is_some(),
                "registered": registered, "attached": attached, "backlog_after_publish": backlog}));
+}
+
+
+// C07: topic actor (inside Publish, posting to a full subscription mailbox) and subscription actor (inside Delete,
+// waiting for the topic) wait for each other.
+async fn actor_deadlock() {
+    let topic_manager = Arc::new(TopicManager::new());
+    let subscription_manager = Arc::new(SubscriptionManager::new(Default::default()));
+    let topic = topic_manager.create_topic(TopicName::try_parse("projects/p/topics/t").unwrap()).unwrap();
+    let name = SubscriptionName::try_parse("projects/p/subscriptions/s").unwrap();
+    let sub = subscription_manager
+        .create_subscription(SubscriptionInfo::new(name.clone(), Duration::from_secs(10), None), topic.clone())
+        .await
+        .unwrap();
+    // 1. the Delete request is the first thing in the subscription's mailbox (no actor has run since)
+    let s2 = sub.clone();
+    let mut del = Box::pin(async move { s2.delete().await.is_ok() });
+    assert!(::futures::poll!(del.as_mut()).is_pending());
+    // 2. a burst of publishes larger than both mailboxes (16 each)
+    let mut pubs = Vec::new();
+    for _ in 0..40 {
+        let t = topic.clone();
+        let mut f = Box::pin(async move { t.publish_messages(vec![TopicMessage::new(Bytes::from("x"), None)]).await.is_ok() });
+        let _ = ::futures::poll!(f.as_mut());
+        pubs.push(f);
+    }
+    // 3. let everything run, all client calls driven concurrently
+    let all = async {
+        let (d, oks) = ::futures::future::join(del, ::futures::future::join_all(pubs)).await;
+        (d, oks.iter().filter(|b| **b).count())
+    };
+    let r = tokio::time::timeout(Duration::from_secs(3), all).await;
+    obs(json!({"scenario": "actor_deadlock", "finished": r.is_ok(), "detail": format!("{:?}", r.ok())}));
 }
